@@ -250,16 +250,18 @@ def run_case(case):
 # ---------------------------------------------------------------- histories: auto-retry and re-runs
 def retry_case(case):
     """case = (mode, kind, attempts: tuple of outcome tuples)  mode in autoretry|rerun ; kind in S|O"""
-    mode, kind, attempts = case
+    with_bg = len(case) > 3 and case[3] == "bg"     # the first outcome of every attempt belongs to a BACKGROUND step
+    mode, kind, attempts = case[:3]
     # an attempt is (outcome tuple, hook fault) with hook fault in None | "before_scenario" | "after_scenario"
     attempts = tuple(a if (len(a) == 2 and isinstance(a[0], tuple)) else (a, None) for a in attempts)
-    case = (mode, kind, attempts)
+    case = (mode, kind, attempts) + (("bg",) if with_bg else ())
     m = harness._imp()
     harness.reset_globals()
     from behave.contrib.scenario_autoretry import patch_scenario_with_autoretry
     nsteps = len(attempts[0][0])
-    item = P.S(("pass",) * nsteps) if kind == "S" else P.O((("pass",) * nsteps,), ncols=nsteps)
-    feat = P.F((item, P.S(("pass",))), bg=None)
+    nown = nsteps - 1 if with_bg else nsteps
+    item = P.S(("pass",) * nown) if kind == "S" else P.O((("pass",) * nown,), ncols=nown)
+    feat = P.F((item, P.S(("pass",))), bg=("pass",) if with_bg else None)
     text, meta = P.render(feat, 0)
 
     def one_run(plans, patch, feats=None):
@@ -346,7 +348,9 @@ def retry_case(case):
                   "run of the last attempt gives %r" % (mode, attempts, got, want)))
     if v:
         v[0][0]["hook_fault_in_earlier_attempt"] = str(any(a[1] for a in attempts[:-1]))
-    return {"v": v, "nt": (mode, kind, attempts) if len(set(attempts)) > 1 else None, "out": got[1:4].__repr__(),
+    for d_, _m in v:
+        d_["background"] = str(with_bg)
+    return {"v": v, "nt": case if len(set(attempts)) > 1 else None, "out": got[1:4].__repr__(),
             "dg": got}
 
 
@@ -374,6 +378,26 @@ def retry_cases(tier):
                 if not any("skip" in a for a in attempts[:-1]):
                     # a scenario excluded by user code (skip()) stays excluded until reset(): by design
                     yield ("rerun", kind, attempts)
+    # the same histories under a BACKGROUND (the first outcome of an attempt is the inherited step's): a later attempt
+    # that is not executed at all (its before_scenario hook raises) must leave the background copies untested too
+    seqs3 = [q for q in itertools.product(outs, repeat=3) if q.count("pass") >= 2 or tier != "quick"]
+    for kind in ("S", "O"):
+        for a1 in seqs3:
+            for a2 in seqs3:
+                yield ("autoretry", kind, (a1, a2), "bg")
+                yield ("rerun-reset", kind, (a1, a2), "bg")
+                if "skip" not in a1:
+                    yield ("rerun", kind, (a1, a2), "bg")
+                for hf1, hf2 in ((None, "before_scenario"), ("before_scenario", None), (None, "after_scenario"),
+                                 ("after_scenario", "before_scenario")):
+                    if "skip" in a1:
+                        continue        # skip() is a user marking that persists into the next attempt (9.2): not retried
+                    if a2.count("pass") == 3 or tier != "quick":
+                        h = ((a1, hf1), (a2, hf2))
+                        yield ("autoretry", kind, h, "bg")
+                        if "skip" not in a1:
+                            yield ("rerun", kind, h, "bg")
+                        yield ("rerun-reset", kind, h, "bg")
 
 
 def run(ctx):
